@@ -777,9 +777,12 @@ func randPForm(r *Rng, n int) pForm {
 		if n < 256 {
 			return pForm{Kind: 0, Lt: 0}
 		}
-		return pForm{Kind: 0, Lt: 1}
+		fallthrough
 	case 1:
-		return pForm{Kind: 0, Lt: 1}
+		if n < 65536 {
+			return pForm{Kind: 0, Lt: 1}
+		}
+		fallthrough
 	case 2:
 		return pForm{Kind: 0, Lt: 2}
 	case 3:
@@ -983,6 +986,212 @@ func c19EmitGSig(c *Ctx, s gSig) {
 	c.Emit("gsigwf", SL{s.sx()}, I(1))
 	c.Emit("gsigview", SL{s.sx()}, obsPacket(b))
 	c.Emit("sigpkt:wf", SL{SB(b), packetOracle([][]byte{b}), SL{s.pktTruth()}}, obsPacket(b))
+}
+
+// ---------------------------------------------------------------- length-encoding boundaries
+
+// subpacket body sizes on both sides of every boundary of the subpacket length encoding
+// (RFC 4880 5.2.3.1: one octet below 192, two octets 192..16319 with a first octet 192..254,
+// five octets above; the encoded length counts the type octet), and the largest body the 16-bit
+// area length leaves room for
+var c19SubBodySizes = []int{0, 1, 189, 190, 191, 192, 193, 8382, 8383, 8384, 8385, 12000, 16317, 16318, 16319, 16320, 65535}
+
+// a version 4 packet with one subpacket of the given body size and length form in the hashed or
+// the unhashed area, before or after the issuer subpacket
+func boundarySubSig(r *Rng, k int, size, form int, hashedArea, afterIssuer bool) gSig {
+	base := randSig(r, false)
+	s := gSig{Version: 4, SigType: base.SigType, Algo: c19Algos[k%len(c19Algos)], Hash: c19Hashes[(k/len(c19Algos))%len(c19Hashes)],
+		Created: base.Created, HashTag: base.HashTag}
+	for i := 0; i < mpiCount(s.Algo); i++ {
+		x := r.Bytes(1 + r.Intn(40))
+		s.MPIs = append(s.MPIs, x)
+		s.Bits = append(s.Bits, 8*len(x)-r.Intn(8))
+	}
+	ct := subPkt{Form: 1, Type: 2, Data: be32(s.Created)}
+	iss := subPkt{Form: 1, Type: 16, Data: be64(base.Issuer)}
+	// what the area length leaves: 65535 - creation time (6) - issuer (10) - length octets - type octet
+	room := 65535 - 1
+	if form == 2 {
+		room -= 2
+	} else if form == 5 {
+		room -= 5
+	} else {
+		room--
+	}
+	if hashedArea {
+		room -= 6
+	}
+	room -= 10
+	if size > room {
+		size = room
+	}
+	typ := []byte{20, 26, 28, 24, 100}[k%5] // notation data, policy URI, signer's user id, key server, private
+	big := subPkt{Form: form, Type: typ, Data: r.Bytes(size)}
+	area := []subPkt{iss, big}
+	if !afterIssuer {
+		area = []subPkt{big, iss}
+	}
+	if hashedArea {
+		s.Hashed = append([]subPkt{ct}, area...)
+	} else {
+		s.Hashed, s.Unhash = []subPkt{ct}, area
+	}
+	s.Form = randPForm(r, len(s.body()))
+	return s
+}
+
+func legalSubForms(size int) []int {
+	n := size + 1
+	switch {
+	case n < 192:
+		return []int{1, 5}
+	case n < 16320:
+		return []int{2, 5}
+	}
+	return []int{5}
+}
+
+// a version 4 packet whose BODY has exactly the wanted length (a notation subpacket fills it up)
+func boundaryBodySig(r *Rng, k int, target int) (gSig, bool) {
+	base := randSig(r, false)
+	s := gSig{Version: 4, SigType: base.SigType, Algo: c19Algos[k%len(c19Algos)], Hash: c19Hashes[(k/len(c19Algos))%len(c19Hashes)],
+		Created: base.Created, HashTag: base.HashTag}
+	for i := 0; i < mpiCount(s.Algo); i++ {
+		x := r.Bytes(1 + r.Intn(8))
+		s.MPIs = append(s.MPIs, x)
+		s.Bits = append(s.Bits, 8*len(x))
+	}
+	s.Hashed = []subPkt{{Form: 1, Type: 2, Data: be32(s.Created)}}
+	s.Unhash = []subPkt{{Form: 1, Type: 16, Data: be64(base.Issuer)}}
+	if target > 40000 { // more than one area holds
+		s.Hashed = append(s.Hashed, subPkt{Form: 5, Type: 20, Data: r.Bytes(30000)})
+	}
+	have := len(s.body())
+	for d := target - have - 6; d <= target-have; d++ {
+		if d < 0 {
+			continue
+		}
+		form := 1
+		if d+1 >= 192 {
+			form = 2
+		}
+		if d+1 >= 16320 {
+			form = 5
+		}
+		t := s
+		t.Unhash = append(append([]subPkt{}, s.Unhash...), subPkt{Form: form, Type: 20, Data: r.Bytes(d)})
+		if len(t.body()) == target {
+			return t, true
+		}
+	}
+	return s, false
+}
+
+// the header forms that can express a body of n octets
+func legalPForms(n int) []pForm {
+	out := []pForm{{Kind: 0, Lt: 2}, {Kind: 0, Lt: 3}, {Kind: 1, F: 5}}
+	if n < 256 {
+		out = append(out, pForm{Kind: 0, Lt: 0})
+	}
+	if n < 65536 {
+		out = append(out, pForm{Kind: 0, Lt: 1})
+	}
+	if n < 192 {
+		out = append(out, pForm{Kind: 1, F: 1})
+	} else if n < 8384 {
+		out = append(out, pForm{Kind: 1, F: 2})
+	}
+	// partial body lengths: one chunk, the rest on either side of the 191/192 and 8383/8384 boundaries when it fits
+	for _, rest := range []int{0, 191, 192, 8383, 8384} {
+		for k := 14; k >= 0; k-- {
+			if n-rest == 1<<uint(k) {
+				f := 1
+				if rest >= 192 {
+					f = 2
+				}
+				if rest >= 8384 {
+					f = 5
+				}
+				out = append(out, pForm{Kind: 2, Ks: []int{k}, F: f})
+			}
+		}
+	}
+	if n >= 600 {
+		f := pForm{Kind: 2, Ks: []int{9}}
+		left := n - 512
+		if left >= 4096 {
+			f.Ks = append(f.Ks, 12)
+			left -= 4096
+		}
+		f.F = 1
+		if left >= 192 {
+			f.F = 2
+		}
+		if left >= 8384 {
+			f.F = 5
+		}
+		out = append(out, f)
+	}
+	return out
+}
+
+// the packet under one signature tag of an otherwise canonical package, judged against the stored truth
+func c19EmitSigPackage(c *Ctx, tag string, s gSig, slot int) {
+	p := randPkg(c.R)
+	for k := range p.Sigs {
+		p.Sigs[k] = nil
+	}
+	b := canonicalBase(p)
+	b.sig = append(b.sig, binEntry(sigTags[slot], s.bytes()))
+	b.sig[0] = binEntry(62, regionTrailer(62, len(b.sig)))
+	var st [4]Sx
+	st[slot] = s.truth()
+	c19Emit(c, tag, b.bytes(), p.truth(st))
+}
+
+func c19Boundaries(c *Ctx) {
+	r := c.R
+	k := 0
+	// corpus: a complete signature whose header announces more octets than the input has
+	// (packet.Read consumes a packet to its end: unexpected EOF), in each definite-length form
+	for i := 0; i < 4; i++ {
+		body := randGSig(r, i).body()
+		n := len(body) + 1 + i
+		c19EmitSig(c, "announced-too-long", append(append([]byte{0x89}, be16(n)...), body...))
+		c19EmitSig(c, "announced-too-long", append(append([]byte{0x8A}, be32(uint32(n))...), body...))
+		c19EmitSig(c, "announced-too-long", append(append([]byte{0xC2, 255}, be32(uint32(n))...), body...))
+		c19EmitSig(c, "announced-too-long", append(append([]byte{0xC2, byte(224 + 2)}, body[:4]...), append(newLenForm(pickNewForm(r, n-4), n-4), body[4:]...)...))
+	}
+	for _, size := range c19SubBodySizes {
+		for _, form := range legalSubForms(size) {
+			for combo := 0; combo < 4; combo++ {
+				if size > 60000 && combo%3 != 0 && !c.Thorough() {
+					continue
+				}
+				s := boundarySubSig(r, k, size, form, combo&1 == 0, combo&2 != 0)
+				c19EmitGSig(c, s)
+				if combo == k%4 || c.Thorough() {
+					c19EmitSigPackage(c, "sub-boundary", s, k%4)
+				}
+				k++
+			}
+		}
+	}
+	for _, target := range []int{190, 191, 192, 193, 255, 256, 257, 8383, 8384, 8385, 65535, 65536, 65537} {
+		base, ok := boundaryBodySig(r, k, target)
+		if !ok {
+			panic("c19: no signature body of the wanted length")
+		}
+		for i, f := range legalPForms(target) {
+			s := base
+			s.Form = f
+			c19EmitGSig(c, s)
+			if i%3 == k%3 || c.Thorough() {
+				c19EmitSigPackage(c, "pkt-boundary", s, k%4)
+			}
+			k++
+		}
+	}
 }
 
 // ---------------------------------------------------------------- arbitrary layouts
@@ -1684,6 +1893,8 @@ func genC19(c *Ctx) {
 	for i := 0; i < nG; i++ {
 		c19EmitGSig(c, randGSig(r, i))
 	}
+	// ---------------- every boundary of the subpacket and packet length encodings ----------------
+	c19Boundaries(c)
 
 	// ---------------- signature packets: forms the canonical writer does not produce ----------------
 	nSig := 150
